@@ -3116,6 +3116,13 @@ rfbProcessClientNormalMessage(rfbClientPtr cl)
  * givenUpdateRegion is not changed.
  */
 
+#ifdef LIBVNC_LIBVNCSERVER_VERIF
+/* verification hook (off unless built with -DLIBVNC_LIBVNCSERVER_VERIF): called once per
+ * framebuffer update with the regions about to be sent as pixel data / as CopyRect */
+void (*rfbVerifPreEncodeHook)(rfbClientPtr cl, sraRegionPtr updateRegion,
+			      sraRegionPtr updateCopyRegion, int dx, int dy) = NULL;
+#endif
+
 rfbBool
 rfbSendFramebufferUpdate(rfbClientPtr cl,
                          sraRegionPtr givenUpdateRegion)
@@ -3475,6 +3482,11 @@ rfbSendFramebufferUpdate(rfbClientPtr cl,
     } else {
 	fu->nRects = 0xFFFF;
     }
+#ifdef LIBVNC_LIBVNCSERVER_VERIF
+    /* verification hook: the soft cursor (if any) is painted, nothing has been encoded yet */
+    if (rfbVerifPreEncodeHook)
+	rfbVerifPreEncodeHook(cl, updateRegion, updateCopyRegion, dx, dy);
+#endif
     cl->ublen = sz_rfbFramebufferUpdateMsg;
 
    if (sendCursorShape) {
